@@ -175,18 +175,42 @@ def npz_files(ctx):
              and _str_const(nd.value.args[0]) == "mo_coeff.npz"]
     ctx.ob("KEYS-2", "mo_coeff.npz: the reader loads the key that is written", len(loads) == 1 and
            _str_const(loads[0].slice) == "mo_coeff", f"reads {[_str_const(l.slice) for l in loads]}", rd)
-    # spin slicing in the reader:  X[s][:, :N[t]]  must have s == t  (name-independent)
+    # spin slicing in the reader:  X[s][:, :N[t]]  must have s == t -- on the value graph, so that named temporaries
+    # (n_up, n_dn = nelec_sp; occ_up = mo_coeff[0][:, :n_up]) are seen through
+    from ..symex import Evaluator, strip_wrappers, subterms
+    ev_ = Evaluator(p)
+    ev_.eval_function(rd)
     pairs = []
-    for nd in ast.walk(rd.node):
-        if isinstance(nd, ast.Subscript) and isinstance(nd.value, ast.Subscript) and \
-                isinstance(nd.value.slice, ast.Constant) and nd.value.slice.value in (0, 1) and \
-                isinstance(nd.slice, ast.Tuple) and len(nd.slice.elts) == 2 and isinstance(nd.slice.elts[1], ast.Slice):
-            up = nd.slice.elts[1].upper
-            if isinstance(up, ast.Subscript) and isinstance(up.slice, ast.Constant) and up.slice.value in (0, 1):
-                pairs.append((nd.value.slice.value, up.slice.value, nd.lineno))
-    ok = len(pairs) >= 2 and all(a == b for a, b, _ in pairs) and {a for a, _, _ in pairs} == {0, 1}
+    seen_ = set()
+    # the per-spin electron counts: the elements of the tuple ((N + |ms|) // 2, (N - |ms|) // 2)
+    counts = {}
+    for e in ev_.events:
+        if e.kind == "assign" and hasattr(e.data[1], "op") and e.data[1].op == "tuple" and len(e.data[1].args) == 2:
+            el = [strip_wrappers(a_) for a_ in e.data[1].args]
+            if all(a_.op == "binop" and a_.args[0] == "//" for a_ in el) and \
+                    [strip_wrappers(a_.args[1]).args[0] if strip_wrappers(a_.args[1]).op == "binop" else None for a_ in el] == ["+", "-"]:
+                counts = {el[0].uid: 0, el[1].uid: 1}
+    for e in ev_.events:
+        vals = [e.data[1]] if e.kind == "assign" else ([e.data[2]] if e.kind == "store" else ([e.data] if e.kind == "call" else []))
+        for val in vals:
+            if not hasattr(val, "op"):
+                continue
+            for x in subterms(val):
+                if x.uid in seen_:
+                    continue
+                seen_.add(x.uid)
+                if x.op == "getitem" and x.args[1].op == "tuple" and len(x.args[1].args) == 2 and \
+                        x.args[1].args[1].op == "slice":
+                    blk = strip_wrappers(x.args[0])
+                    up = strip_wrappers(x.args[1].args[1].args[1])
+                    if blk.op == "getitem" and blk.args[1].op == "const" and blk.args[1].args[0] in (0, 1):
+                        if up.uid in counts:
+                            pairs.append((blk.args[1].args[0], counts[up.uid], 0))
+                        elif up.op == "getitem" and up.args[1].op == "const" and up.args[1].args[0] in (0, 1):
+                            pairs.append((blk.args[1].args[0], up.args[1].args[0], 0))
+    ok = len(pairs) >= 2 and all(a_ == b_ for a_, b_, _ in pairs) and {a_ for a_, _, _ in pairs} == {0, 1}
     ctx.ob("PAIR-1", "_prep_afqmc: orbital block s is sliced with the electron count of spin s", ok,
-           f"(block, count) index pairs {[(a, b) for a, b, _ in pairs]}", rd)
+           f"(block, count) index pairs {sorted({(a_, b_) for a_, b_, _ in pairs})}", rd)
     # amplitudes
     amp = [s for s in saves if s[0] == "amplitudes.npz"]
     by_keys = {frozenset(s[1]): s for s in amp}
